@@ -111,6 +111,10 @@ func UserDefined(exprs []*lisp.LVal) map[string]bool {
 				if target.Type == lisp.LSymbol && target.IsQuoted() {
 					defs[target.Str] = true
 				}
+				// (set (quote name) value), the longhand of 'name
+				if HeadSymbol(target) == "quote" && ArgCount(target) == 1 && target.Cells[1].Type == lisp.LSymbol {
+					defs[target.Cells[1].Str] = true
+				}
 			}
 		}
 	})
